@@ -60,4 +60,16 @@ harnesses! {
     #[kani::stub(core::str::count::count_chars, crate::env::count_chars_stub)]
     #[kani::stub(alloc::fmt::format, crate::env::format_stub)]
     fn c11_format_error_n6(nd) { format_error_body::<_, 6>(nd) }
+    #[kani::unwind(11)]
+    #[kani::stub(alloc::fmt::format, crate::env::format_stub)]
+    #[kani::stub(core::slice::memchr::memchr, crate::env::memchr_stub)]
+    #[kani::stub(core::slice::memchr::memrchr, crate::env::memrchr_stub)]
+    #[kani::stub(core::str::count::count_chars, crate::env::count_chars_stub)]
+    fn c11_format_error_n8(nd) { format_error_body::<_, 8>(nd) }
+    #[kani::unwind(13)]
+    #[kani::stub(alloc::fmt::format, crate::env::format_stub)]
+    #[kani::stub(core::slice::memchr::memchr, crate::env::memchr_stub)]
+    #[kani::stub(core::slice::memchr::memrchr, crate::env::memrchr_stub)]
+    #[kani::stub(core::str::count::count_chars, crate::env::count_chars_stub)]
+    fn c11_format_error_n10(nd) { format_error_body::<_, 10>(nd) }
 }
